@@ -181,8 +181,25 @@ class Gen:
             return f'({self.text_expr(scope, depth - 1)} || {self.text_expr(scope, 0)})'
         raise AssertionError(kind)
 
+    def colref(self, scope, typ='int'):
+        """an expression of the given type that is guaranteed to mention a column (None if the scope has none)"""
+        cols = self.cols(scope, typ)
+        return self.pick(cols) if cols else None
+
+    def with_col(self, expr, scope, typ='int'):
+        """expr itself when it mentions a column, otherwise a column of the scope (constant-only atoms are not
+        generated: SQLite 3.40 mis-evaluates constant-false join terms next to RIGHT JOIN, so they would make the
+        reference engine unreliable)"""
+        import re as _re
+        if _re.search(r'[A-Za-z_][A-Za-z_0-9]*\.[A-Za-z_]', expr) or not scope:
+            return expr
+        c = self.colref(scope, typ) or self.colref(scope, 'int')
+        return c if c is not None else expr
+
     def bool_expr(self, scope, depth, allow_sub=True):
         kinds = ['cmp', 'cmp', 'cmp', 'isnull', 'in', 'between', 'textcmp', 'like']
+        if not self.cols(scope, 'text'):
+            kinds = ['cmp', 'cmp', 'cmp', 'isnull', 'in', 'between']
         if depth > 0:
             kinds += ['and', 'and', 'or', 'not']
             if allow_sub and self.cfg.subselect_where:
@@ -194,26 +211,31 @@ class Gen:
         kind = self.pick(kinds)
         if kind == 'cmp':
             op = self.pick(['=', '!=', '<>', '<', '<=', '>', '>='])
-            return f'({self.int_expr(scope, depth - 1)} {op} {self.int_expr(scope, depth - 1)})'
+            return f'({self.with_col(self.int_expr(scope, depth - 1), scope)} {op} {self.int_expr(scope, depth - 1)})'
         if kind == 'textcmp':
-            return f'({self.text_expr(scope, depth - 1)} {self.pick(["=", "!=", "<"])} {self.text_expr(scope, 0)})'
+            return (f'({self.with_col(self.text_expr(scope, depth - 1), scope, "text")} {self.pick(["=", "!=", "<"])} '
+                    f'{self.text_expr(scope, 0)})')
         if kind == 'like':
             self.tags.add('like')
             neg = 'NOT ' if self.chance(1, 3) else ''
-            return f"({self.text_expr(scope, 0)} {neg}LIKE '{self.pick(['x%', '%', 'y', '_'])}')"
+            return f"({self.with_col(self.text_expr(scope, 0), scope, 'text')} {neg}LIKE '{self.pick(['x%', '%', 'y', '_'])}')"
         if kind == 'isnull':
             self.tags.add('isnull')
-            e = self.int_expr(scope, 0) if self.chance(2, 3) else self.text_expr(scope, 0)
+            if self.chance(2, 3) or not self.cols(scope, 'text'):
+                e = self.with_col(self.int_expr(scope, 0), scope)
+            else:
+                e = self.with_col(self.text_expr(scope, 0), scope, 'text')
             return f'({e} IS {"NOT " if self.chance(1, 2) else ""}NULL)'
         if kind == 'in':
             self.tags.add('in')
             neg = 'NOT ' if self.chance(1, 3) else ''
             n = self.draw(st.integers(1, 3))
             items = ', '.join(str(self.pick([0, 1, 2, 3])) for _ in range(n))
-            return f'({self.int_expr(scope, depth - 1)} {neg}IN ({items}))'
+            return f'({self.with_col(self.int_expr(scope, depth - 1), scope)} {neg}IN ({items}))'
         if kind == 'between':
             self.tags.add('between')
-            return f'({self.int_expr(scope, depth - 1)} BETWEEN {self.pick([0, 1])} AND {self.pick([1, 2, 3])})'
+            return (f'({self.with_col(self.int_expr(scope, depth - 1), scope)} BETWEEN {self.pick([0, 1])} '
+                    f'AND {self.pick([1, 2, 3])})')
         if kind == 'and':
             return f'({self.bool_expr(scope, depth - 1, allow_sub)} AND {self.bool_expr(scope, depth - 1, allow_sub)})'
         if kind == 'or':
@@ -226,7 +248,7 @@ class Gen:
             self.tags.add('sub:in')
             neg = 'NOT ' if self.chance(1, 3) else ''
             sub = self.simple_subselect(scope, 'int', correlated=False)
-            return f'({self.int_expr(scope, 0)} {neg}IN ({sub}))'
+            return f'({self.with_col(self.int_expr(scope, 0), scope)} {neg}IN ({sub}))'
         if kind == 'exists':
             self.tags.add('sub:exists')
             neg = 'NOT ' if self.chance(1, 3) else ''
@@ -235,7 +257,7 @@ class Gen:
         if kind == 'scalarsub':
             self.tags.add('sub:scalar')
             sub = self.agg_subselect(scope)
-            return f'({self.int_expr(scope, 0)} {self.pick(["=", "<", ">="])} ({sub}))'
+            return f'({self.with_col(self.int_expr(scope, 0), scope)} {self.pick(["=", "<", ">="])} ({sub}))'
         raise AssertionError(kind)
 
     def sub_tables(self):
@@ -434,6 +456,7 @@ class Gen:
             if self.chance(1, 3):
                 self.tags.add('having')
                 sql += f' HAVING (count(*) {self.pick([">", ">=", "="])} {self.pick([0, 1, 2])})'
+        sql_nolimit = None
         if cfg.order and allow_order and not star and (top or self.chance(1, 4)) and self.chance(1, 2):
             self.tags.add('order')
             n = len(out_types)
@@ -457,6 +480,9 @@ class Gen:
             if cfg.limit and (total_order or not cfg.limit_needs_total_order) and self.chance(1, 2):
                 has_limit = True
                 self.tags.add('limit')
+                sql_nolimit = sql
+                if not total_order:
+                    self.tags.add('limit:partial-order')
                 sql += f' LIMIT {self.pick([0, 1, 2, 3])}'
                 if self.chance(1, 3):
                     self.tags.add('offset')
@@ -465,8 +491,11 @@ class Gen:
             has_limit = True
             self.tags.add('limit')
             self.tags.add('limit:unordered')
+            sql_nolimit = sql
             sql += f' LIMIT {self.pick([1, 2, 3])}'
         meta = {'order_cols': order_meta, 'total_order': total_order, 'limit': has_limit}
+        if has_limit and top:
+            meta['sql_unlimited'] = sql_nolimit
         return sql, out_types, meta
 
     def query(self, depth=2):
@@ -493,6 +522,8 @@ class Gen:
             meta = {'order_cols': [], 'total_order': False, 'limit': False}
             return prefix + sql, types, meta
         sql, types, meta = self.select(depth, top=True)
+        if meta.get('sql_unlimited'):
+            meta['sql_unlimited'] = prefix + meta['sql_unlimited']
         return prefix + sql, types, meta
 
 
